@@ -464,6 +464,7 @@ func (w *clWorld) prefixOf(a, b clHead) bool {
 //	       "P<hexpath>" exactly that path
 //	kind:  flip/<off>.<bit>   trunc/<len>   ext/<n>   extsig   err   negid   notree
 //	       swap/<hexpath>     serve the honest response of another path
+//	       split/<log>@<size> tiles only: right-edge tiles of that snapshot's tree come from it, all others honestly (split-view server)
 //	       src/<log>@<size>   serve the same path from another snapshot (stale head, fork, forged log)
 //	       sigsrc/<log>@<size> lookup only: record+tree text from that snapshot, signature lines from the honest response
 //	       recsrc/<log>@<size> lookup only: record part from that snapshot, signed tree head from the honest response
@@ -604,6 +605,22 @@ func (f clFault) apply(e *clEnv, path string, honest []byte, herr error) ([]byte
 	case "swap":
 		d, err := e.honestGet(unhx(f.param))
 		return d, err, true
+	case "split":
+		// split-view server: a tile that lies on the right edge of (or beyond the common part inside) the given
+		// snapshot's tree is served from that snapshot, every other tile honestly
+		sn, ok := e.w.parseSrc(f.param)
+		t, ok2 := clTileOfPath(path)
+		if !ok || !ok2 {
+			return nil, nil, false
+		}
+		level := uint(t.H * t.L)
+		end := (t.N<<uint(t.H) + int64(t.W)) << level
+		edge := (t.N<<uint(t.H) + int64(t.W)) == int64(sn.n)>>level
+		if end <= int64(sn.n) && (edge || end > int64(e.tileSrc.n)) {
+			d, err := sn.get(path)
+			return d, err, true
+		}
+		return honest, herr, true
 	case "src", "sigsrc", "hashsrc", "recsrc":
 		s, ok := e.w.parseSrc(f.param)
 		if !ok {
